@@ -285,6 +285,24 @@ def analyse(repo, package='pyx12', exclude=('test', 'scripts', 'examples')):
                     if isinstance(n, ast.Attribute) and isinstance(n.ctx, ast.Load) and n.attr == 'fd' and \
                             not (isinstance(pm.get(n), ast.Attribute) and pm.get(n).attr in ('write',)):
                         findings.append(Finding('direct-write', m.name, qual, pm_stmt(pm, n), 'reads self.fd other than to write'))
+                # ---- call protocol of the error tree (C05): err_X.close() fixes the acknowledgement code of a set / group / interchange
+                # from the errors stored AT THAT MOMENT (contracts err_st.close / err_gs.close), so at every call site the errors the
+                # reader holds for the trailer must have been attached first: an earlier statement of the same block as errh.close_*_loop(..)
+                # is errh.handle_errors(src.pop_errors())
+                if m.name == 'x12n_document' and isinstance(n, ast.Call) and isinstance(n.func, ast.Attribute) and \
+                        n.func.attr in ('close_isa_loop', 'close_gs_loop', 'close_st_loop'):
+                    stmt = pm_stmt(pm, n)
+                    par = pm.get(stmt)
+                    before = []
+                    for fld in ('body', 'orelse', 'finalbody'):
+                        blk = getattr(par, fld, None)
+                        if isinstance(blk, list) and stmt in blk:
+                            before = blk[:blk.index(stmt)]
+                    recv = text(n.func.value)
+                    want = '%s.handle_errors(src.pop_errors())' % recv
+                    if not any(text(p).replace(' ', '') == want.replace(' ', '') for p in before):
+                        findings.append(Finding('errors-before-close', m.name, qual, stmt,
+                                                '%s is not preceded in its block by %s' % (n.func.attr, want)))
                 # ---- delimiter reads (C12)
                 if isinstance(n, ast.Attribute) and isinstance(n.ctx, ast.Load) and n.attr in DELIM_ATTRS:
                     findings.append(Finding('delim-read', m.name, qual, pm_stmt(pm, n), 'reads .%s' % n.attr))
